@@ -931,3 +931,94 @@ Proof.
   - intros [[d [H1 [H2 H3]]]|H]; [left | right; exact H].
     exists d. split; [symmetry; exact H3|]. apply filter_In. split; assumption.
 Qed.
+
+(* ------------------------------------------------------------------ consumer's view of tools *)
+Lemma insert_key_perm : forall A (x : str * A) l, Permutation (insert_key x l) (x :: l).
+Proof.
+  induction l as [|y l IH]; cbn; [apply Permutation_refl|].
+  destruct (str_leb (fst x) (fst y)); [apply Permutation_refl|].
+  eapply Permutation_trans; [apply perm_skip; exact IH | apply perm_swap].
+Qed.
+
+Lemma sort_by_key_perm : forall A (l : list (str * A)), Permutation (sort_by_key l) l.
+Proof.
+  induction l as [|x l IH]; cbn; [constructor|].
+  eapply Permutation_trans; [apply insert_key_perm | apply perm_skip; exact IH].
+Qed.
+
+Lemma insert_str_perm : forall x l, Permutation (insert_str x l) (x :: l).
+Proof.
+  induction l as [|y l IH]; cbn; [apply Permutation_refl|].
+  destruct (str_leb x y); [apply Permutation_refl|].
+  eapply Permutation_trans; [apply perm_skip; exact IH | apply perm_swap].
+Qed.
+
+Lemma sort_str_perm : forall l, Permutation (sort_str l) l.
+Proof.
+  induction l as [|x l IH]; cbn; [constructor|].
+  eapply Permutation_trans; [apply insert_str_perm | apply perm_skip; exact IH].
+Qed.
+
+Lemma library_paths_consumer_view_proof : forall self tools p,
+  In p (library_paths self tools) <->
+  exists n t l, In (n, t) tools /\ In l t.(it_libs) /\ p = os_join (exec_path t.(it_step) (Some self)) l.
+Proof.
+  intros self tools p. unfold library_paths. rewrite in_flat_map. split.
+  - intros [[n t] [Hin Hp]]. cbn [snd] in Hp. apply in_map_iff in Hp. destruct Hp as [l [Hl1 Hl2]].
+    exists n, t, l. split; [eapply Permutation_in; [apply sort_by_key_perm | exact Hin]|]. split; [exact Hl2 | symmetry; exact Hl1].
+  - intros [n [t [l [H1 [H2 H3]]]]]. exists (n, t). split.
+    + eapply Permutation_in; [apply Permutation_sym; apply sort_by_key_perm | exact H1].
+    + cbn [snd]. apply in_map_iff. exists l. split; [symmetry; exact H3 | exact H2].
+Qed.
+
+Lemma tool_paths_consumer_view_proof : forall self tools p,
+  In p (tool_paths self tools) <->
+  exists n t, In (n, t) tools /\ p = os_join (exec_path t.(it_step) (Some self)) t.(it_path).
+Proof.
+  intros self tools p. unfold tool_paths. split.
+  - intro H. apply (Permutation_in _ (sort_str_perm _)) in H. apply in_map_iff in H.
+    destruct H as [[n t] [H1 H2]]. exists n, t. split; [exact H2 | symmetry; exact H1].
+  - intros [n [t [H1 H2]]]. eapply Permutation_in; [apply Permutation_sym; apply sort_str_perm|].
+    apply in_map_iff. exists (n, t). split; [symmetry; exact H2 | exact H1].
+Qed.
+
+Lemma is_prefix_app : forall a b, is_prefix a (a ++ b) = true.
+Proof. induction a; intro b; cbn; [reflexivity|]. rewrite N.eqb_refl. apply IHa. Qed.
+
+Lemma under_os_join : forall e l, e <> [] -> is_abs l = false -> under e (os_join e l) = true.
+Proof.
+  intros e l He Hl. unfold os_join, under. rewrite Hl. destruct e as [|c e]; [congruence|].
+  destruct (last_is_slash (c :: e)); apply orb_true_iff; right.
+  - apply is_prefix_app.
+  - rewrite app_assoc. apply is_prefix_app.
+Qed.
+
+(* every LD_LIBRARY_PATH entry lies inside a dependency that is mounted read-only *)
+Lemma library_path_inside_mounted_tool_proof : forall w sp self tools n t l,
+  has_sandbox sp = true ->
+  In (n, t) tools -> In l t.(it_libs) -> is_abs l = false ->
+  exec_path t.(it_step) (Some self) <> [] ->
+  In (tool_mount self t) sp.(sp_dep_mounts) ->
+  In (os_join (exec_path t.(it_step) (Some self)) l) (library_paths self tools) /\
+  In (dep_mount w (tool_mount self t)) (mount_plan w sp) /\
+  under (exec_path t.(it_step) (Some self)) (os_join (exec_path t.(it_step) (Some self)) l) = true.
+Proof.
+  intros w sp self tools n t l Hs Hin Hl Habs Hne Hm. split; [|split].
+  - apply library_paths_consumer_view_proof. exists n, t, l. repeat split; assumption.
+  - apply deps_mounted_readonly_proof; assumption.
+  - apply under_os_join; assumption.
+Qed.
+
+Lemma ld_library_path_consumer_view_proof : forall dpath preserve cwd sp environ e' self tools,
+  spec_ok cwd sp ->
+  sp.(sp_libs) = library_paths self tools ->
+  sp.(sp_paths) = tool_paths self tools ->
+  script_env dpath preserve cwd sp environ = Some e' ->
+  lookup e' s_LD = Some (join_with [ch_colon] (map (abspath cwd) (library_paths self tools))) /\
+  lookup e' s_PATH = Some (path_value (map (abspath cwd) (tool_paths self tools))
+                                      (getenv (bash_init dpath (proc_env preserve sp environ)) s_PATH)).
+Proof.
+  intros dpath preserve cwd sp environ e' self tools Hok Hl Hp Hrun.
+  destruct (tools_on_path_proof dpath preserve cwd sp environ e' Hok Hrun) as [H1 [H2 _]].
+  rewrite <- Hl, <- Hp. split; assumption.
+Qed.
